@@ -121,6 +121,11 @@ func safeModeSweep(c *Ctx, targeted []string, each func(cf Cfg, it docItem, out 
 			}
 		}
 	})
+	if c.Quick() {
+		parserModelCases(c, items, 6000)
+	} else {
+		parserModelCases(c, items, 60000)
+	}
 	var mu sync.Mutex
 	type viol struct {
 		i            int
